@@ -814,8 +814,9 @@ def parameter_index_with_vector_result(case):
 
 @predicate("F-05g")
 def index_of_index_axis(case):
-    """index(index_axis(A, k, 1), j) through the generated code: KeyError 'A[:,k]'"""
-    return case.get("form") == "index_of_axis" and case.get("path") == "codegen"
+    """an index helper applied to the result of another index helper - index(index_axis(A, k, 1), j), index(index(A, j), k)
+    - through the generated code: KeyError 'A[:,k]' / 'A[1]' (literal indices) or IndexError (parameter indices)"""
+    return case.get("form") in ("index_of_axis", "index_nested") and case.get("path") == "codegen"
 
 
 @predicate("F-07d")
